@@ -296,7 +296,7 @@ pub fn execute(h: &History) -> Exec {
                     Call::GetLine(i) | Call::GetLineSlice(i, _, _) => (*i as u64 + 1).min(n as u64) as u32,
                     Call::LineCount | Call::Lines => n,
                     Call::LinesTake(k) => (*k).min(n),
-                    Call::Source => 0,
+                    Call::Source | Call::CloneGetLine(_) => 0,
                 };
                 cached[cur] = cached[cur].max(need);
                 if let Call::GetLineSlice(l, c, s) = call {
